@@ -149,6 +149,11 @@ class Documentable:
         self.name = name
         self.parent = parent
         self.parentMod: Optional[Module] = None
+        self.definingMod: Optional[Module] = None
+        """
+        The module this object was moved out of by a re-export: the one its source, and so 
+        its docstring, is written in. C{None} for an object that lives where it is defined.
+        """
         self.source_path: Optional[Path] = source_path
         self.extra_info: List[ParsedDocstring] = []
         """
@@ -275,6 +280,8 @@ class Documentable:
         old_parent = self.parent
         assert isinstance(old_parent, CanContainImportsDocumentable)
         old_name = self.name
+        if self.definingMod is None:
+            self.definingMod = self.parentMod
         self.parent = self.parentMod = new_parent
         self.name = new_name
         del old_parent.contents[old_name]
